@@ -3,7 +3,7 @@ import itertools
 
 from hypothesis import strategies as st
 
-from vlib.core import SubCheck, Violation, Outcome
+from vlib.core import SubCheck, Violation, Outcome, fresh
 from vlib import tt
 from vlib import graphs_gen as gg
 
@@ -77,7 +77,7 @@ def apply(F, t):
         return cnfgen.FlipPolarity(F)
     if name in ('xorcomp', 'majcomp'):
         B = gg.build_bipartite(t['B'])
-        return cnfgen.VariableCompression(F, B, function='xor' if name == 'xorcomp' else 'maj')
+        return cnfgen.VariableCompression(F, B, function=fresh('xor' if name == 'xorcomp' else 'maj'))
     raise ValueError(name)
 
 
@@ -316,7 +316,7 @@ def strat_case(draw):
             F = {'kind': 'hand', 'n': 3, 'clauses': [[1, -2], [2, 3], [-1, -3]]}
             n = 3
         R = draw(st.integers(0, 6))
-        g = draw(gg.bipartite_graphs(Lmin=n, Lmax=n, Rmin=R, Rmax=R, kinds=('cnfgen', 'networkx')))
+        g = draw(gg.bipartite_graphs(Lmin=n, Lmax=n, Rmin=R, Rmax=R))
         # keep the clause blow-up bounded: at most 4 right neighbours per variable
         keep = []
         cnt = {}
@@ -356,7 +356,7 @@ def enum_cases(tier):
         for g in gg.all_bipartite_graphs(n, 2, Lmin=n):
             for name in ('xorcomp', 'majcomp'):
                 c = dict(g)
-                c['as'] = 'cnfgen'
+                c['as'] = gg.BIP_ROT[(len(g['edges']) + n) % len(gg.BIP_ROT)]
                 yield {'F': F, 'T': {'name': name, 'B': c}}
 
 
